@@ -273,4 +273,6 @@ PROPS['C20']['text'] += (' Overflow checks on collection-size arithmetic are dis
 for _p in PROPS.values():
     if 'technique' in _p and 'normal form' not in _p['technique']:
         _p['technique'] += '; decided on a normal form of the MIR (helper splicing, jump threading, loop/nest form, SROA; DESIGN section 11)'
+PROPS['C04']['text'] += ' R5: the table obligations of C16 (R1-R3: lifting, group axioms, general positions / signatures) are imported.'
+PROPS['C19']['text'] += ' R3: the exact-undo obligations of C06.R3 are imported (an undo that restores a stale value makes the next move larger than one step).'
 
